@@ -101,7 +101,7 @@ def run_request(B, shim, wd, tasks, timeout=90):
     d = tempfile.mkdtemp(prefix='q', dir=wd)
     L = ['BEGIN:VCALENDAR', 'VERSION:2.0']
     for k, t in enumerate(tasks):
-        L += ['BEGIN:VTODO', 'UID:t%d' % k, 'SUMMARY:date +%%s.%%N > %s/start%d; sleep %d; date +%%s.%%N > %s/end%d' % (d, k, t['W'], d, k),
+        L += ['BEGIN:VTODO', 'UID:t%d' % k, 'SUMMARY:date +%%s.%%N > %s/start%d; (sleep %d\\; date +%%s.%%N > %s/end%d) & wait' % (d, k, t['W'], d, k),      # the work is done by a child of the shell: a limit must reach it too
               'X-ECHS-SETUID:%d' % os.getuid(), 'X-ECHS-SETGID:%d' % os.getgid(),
               'X-ECHS-SHELL:' + ('/bin/sh' if t.get('spawn', True) else '/nonexistent/sh'), 'LOCATION:' + d]
         if not t.get('prep', True): L.append('X-ECHS-IFILE:%s/missing-input' % d)
